@@ -109,3 +109,100 @@ def t_assignments(positions, codes):
     names = [f"t_{j}" for j in positions]
     for vals in itertools.product(codes, repeat=len(names)):
         yield dict(zip(names, vals))
+
+
+# -- stack transition relation of the per-instruction encoders ----------------------------------------------------------------
+class SFStack(SF):
+    def u(self, i, j):
+        return T(f"u_{i}_{j}")
+
+    def x(self, i, j):
+        return T(f"x_{i}_{j}")
+
+    def stack_var(self, v):
+        return T(f"term_{v}", const=v)
+
+    def empty(self):
+        return T("empty", const="E")
+
+
+def machine_step(kind, stack, bs, p):
+    """reference stack machine (top of the stack first); None = instruction not applicable"""
+    if kind == "push":
+        return [p["v"]] + stack if len(stack) < bs else None
+    if kind == "dup":
+        return [stack[p["k"] - 1]] + stack if len(stack) >= p["k"] and len(stack) < bs else None
+    if kind == "swap":
+        k = p["k"]
+        if len(stack) <= k:
+            return None
+        s = list(stack)
+        s[0], s[k] = s[k], s[0]
+        return s
+    if kind == "pop":
+        return stack[1:] if stack else None
+    if kind == "nop":
+        return list(stack)
+    if kind == "fn":
+        n = len(p["o"])
+        if stack[:n] != list(p["o"]) or len(stack) - n + 1 > bs:
+            return None
+        return [p["r"]] + stack[n:]
+    if kind == "comm":
+        if stack[:2] not in ([p["o0"], p["o1"]], [p["o1"], p["o0"]]):
+            return None
+        return [p["r"]] + stack[2:]
+    if kind == "store":
+        return stack[2:] if stack[:2] == [p["o0"], p["o1"]] else None
+    if kind == "popu":
+        return stack[1:] if stack[:1] == [p["o0"]] else None
+    raise AnalysisError(kind)
+
+
+def states(bs, dom, empty_variant):
+    """all (assignment fragment for time j, well-formed?, stack) over bs slots"""
+    if empty_variant:
+        for xs in itertools.product(list(dom) + ["E"], repeat=bs):
+            h = next((i for i, v in enumerate(xs) if v == "E"), bs)
+            wf = all(v == "E" for v in xs[h:])
+            yield {"x": xs}, wf, list(xs[:h])
+    else:
+        for us in itertools.product((True, False), repeat=bs):
+            h = next((i for i, v in enumerate(us) if not v), bs)
+            wf = not any(us[h:])
+            for xs in itertools.product(dom, repeat=bs):
+                yield {"u": us, "x": xs}, wf, list(xs[:h])
+
+
+def as_assignment(st, j, bs):
+    a = {}
+    for i in range(bs):
+        a[f"x_{i}_{j}"] = st["x"][i]
+        if "u" in st:
+            a[f"u_{i}_{j}"] = st["u"][i]
+    return a
+
+
+def check_transition(formula, kind, params, bs, dom, empty_variant, extra_asg=None):
+    """-> None or (problem kind, description).  The encoder's formula for position 0 -> 1 with t_0 = theta."""
+    posts = list(states(bs, dom, empty_variant))
+    n = 0
+    for pre, wf, stack in states(bs, dom, empty_variant):
+        if not wf:
+            continue
+        want = machine_step(kind, stack, bs, params)
+        found = False
+        base = dict(as_assignment(pre, 0, bs), t_0="theta")
+        base.update(extra_asg or {})
+        for post, pwf, pstack in posts:
+            n += 1
+            asg = dict(base, **as_assignment(post, 1, bs))
+            if value(formula, asg):
+                if want is None:
+                    return "admits-inapplicable", f"with the stack {stack} the instruction is not applicable, but the constraint admits the next state {pstack if pwf else post}", n
+                if not pwf or pstack != want:
+                    return "admits-wrong-successor", f"from the stack {stack} the constraint admits the next state {pstack if pwf else post} instead of {want}", n
+                found = True
+        if want is not None and not found:
+            return "excludes-the-successor", f"from the stack {stack} no next state satisfies the constraint (the instruction should give {want})", n
+    return None, None, n
